@@ -391,6 +391,12 @@ class RelayRun(object):
 
     def settle(self):
         vt.settle()
+        if getattr(self, 'pool_obs', False):
+            # the pool's own books at a quiescent point (optional: read from the object)
+            try:
+                self.log(t='pool', n=len(self.relay.pool), q=len(self.relay.queue))
+            except Exception:  # noqa
+                pass
 
     def run_to_end(self, limit=1000 + 200):
         self.settle()
